@@ -32,7 +32,7 @@ import (
 
 type verifC11Poll struct {
 	Status   int    `json:"status"`
-	Location bool   `json:"location"`
+	Location string `json:"location"` // none | relative | same | other
 	Size     string `json:"size"`
 	Shape    string `json:"shape"`
 	Poll     struct {
@@ -52,6 +52,7 @@ type verifC11Expect struct {
 		Path        string `json:"path"`
 		Poll        string `json:"poll"`
 		MustNotName string `json:"mustnotname"`
+		Requests    int    `json:"requests"`
 	} `json:"req"`
 	Res string `json:"res"`
 }
@@ -145,29 +146,42 @@ func (b *verifC11Body) Close() error { b.closed = true; return nil }
 
 var verifC11Scripts = [][]string{{"All"}, {"K1"}, {"Part"}, {"AllEOF"}, {"Zero", "Part"}, {"K1", "AllEOF"}}
 
-type verifC11Transport struct {
-	resp    func(*http.Request) (*http.Response, error)
-	calls   int
-	method  string
-	url     string
-	scheme  string
-	urlHost string
-	host    string // req.Host
-	path    string // escaped path
-	query   string
-	body    []byte
-	hasBody bool
+type verifC11Seen struct {
+	method, url, scheme, urlHost, host, path, query string
+	body                                            []byte
+	hasBody                                         bool
 }
+
+// verifC11Transport records every request it is handed. The first request of
+// an exchange gets the scripted response; ANY follow-up request (a followed
+// redirect, a retry) is answered 200 with a valid body, so that it would look
+// like a success to the caller.
+type verifC11Transport struct {
+	resp     func(*http.Request) (*http.Response, error)
+	followup func(*http.Request) (*http.Response, error)
+	seen     []verifC11Seen // requests of the current exchange
+	calls    int
+	// the first request of the current exchange
+	method, url, scheme, urlHost, host, path, query string
+	body                                            []byte
+	hasBody                                         bool
+}
+
+func (t *verifC11Transport) begin() { t.seen = nil }
 
 func (t *verifC11Transport) RoundTrip(req *http.Request) (*http.Response, error) {
 	t.calls++
-	t.body, t.hasBody = nil, false
-	t.method, t.url, t.scheme, t.urlHost, t.host = req.Method, req.URL.String(), req.URL.Scheme, req.URL.Host, req.Host
-	t.path, t.query = req.URL.EscapedPath(), req.URL.RawQuery
+	sn := verifC11Seen{method: req.Method, url: req.URL.String(), scheme: req.URL.Scheme, urlHost: req.URL.Host, host: req.Host,
+		path: req.URL.EscapedPath(), query: req.URL.RawQuery}
 	if req.Body != nil {
-		t.body, _ = ioutil.ReadAll(req.Body)
-		t.hasBody = true
+		sn.body, _ = ioutil.ReadAll(req.Body)
+		sn.hasBody = true
 	}
+	t.seen = append(t.seen, sn)
+	if len(t.seen) > 1 {
+		return t.followup(req)
+	}
+	t.method, t.url, t.scheme, t.urlHost, t.host, t.path, t.query, t.body, t.hasBody = sn.method, sn.url, sn.scheme, sn.urlHost, sn.host, sn.path, sn.query, sn.body, sn.hasBody
 	return t.resp(req)
 }
 
@@ -290,12 +304,34 @@ func verifC11One(raw []byte, idx int, seed uint64, put func(verifC11Result)) (no
 		tr.resp = func(req *http.Request) (*http.Response, error) {
 			h := http.Header{}
 			h.Set("Content-Type", "text/html")
-			if pl.Location {
-				h.Set("Location", "https://broker.example/elsewhere")
+			switch pl.Location {
+			case "none":
+			case "relative":
+				h.Set("Location", "/moved/"+strings.TrimPrefix(req.URL.Path, "/"))
+			case "same": // absolute, the host this request names as its origin
+				origin := req.Host
+				if origin == "" {
+					origin = req.URL.Host
+				}
+				h.Set("Location", req.URL.Scheme+"://"+origin+"/moved"+req.URL.EscapedPath())
+			case "other":
+				h.Set("Location", "https://elsewhere.example"+req.URL.EscapedPath())
+			default:
+				panic("unknown expected location class " + pl.Location)
 			}
 			return &http.Response{Status: fmt.Sprintf("%d %s", pl.Status, http.StatusText(pl.Status)), StatusCode: pl.Status,
 				Proto: "HTTP/1.1", ProtoMajor: 1, ProtoMinor: 1, Header: h, Body: rb, ContentLength: -1, Request: req}, nil
 		}
+		follow := []byte("followed-redirect-answer")
+		tr.followup = func(req *http.Request) (*http.Response, error) {
+			b := follow
+			if c.Cs.Method == "amp" {
+				b = verifC11Armor(follow)
+			}
+			return &http.Response{Status: "200 OK", StatusCode: 200, Proto: "HTTP/1.1", ProtoMajor: 1, ProtoMinor: 1,
+				Header: http.Header{"Content-Type": {"text/html"}}, Body: ioutil.NopCloser(bytes.NewReader(b)), ContentLength: -1, Request: req}, nil
+		}
+		tr.begin()
 		before := tr.calls
 		pollCopy := append([]byte(nil), poll...)
 		got, gerr := rv.Exchange(pollCopy)
@@ -313,8 +349,18 @@ func verifC11One(raw []byte, idx int, seed uint64, put func(verifC11Result)) (no
 			}
 			bad := true
 			switch {
-			case calls != 1:
-				report("request/count/"+conf, fmt.Sprintf("%d requests were made", calls))
+			case calls != e.Requests:
+				extra := ""
+				for q, sn := range tr.seen {
+					eff := sn.host
+					if eff == "" {
+						eff = sn.urlHost
+					}
+					extra += fmt.Sprintf("; request %d: %s to %q with Host %q, %d body bytes", q+1, sn.method, sn.urlHost, eff, len(sn.body))
+				}
+				report(fmt.Sprintf("request/count/%s/status=%dxx/location=%s", conf, pl.Status/100, pl.Location),
+					fmt.Sprintf("%d requests were handed to the transport by one Exchange (status %d, Location %s), the contract says %d%s; result: %d bytes, err=%v",
+						calls, pl.Status, pl.Location, e.Requests, extra, len(got), gerr))
 			case tr.method != e.Method:
 				report("request/method/"+conf, fmt.Sprintf("method %s, contract says %s", tr.method, e.Method))
 			case tr.scheme != e.Scheme:
@@ -362,7 +408,7 @@ func verifC11One(raw []byte, idx int, seed uint64, put func(verifC11Result)) (no
 		}
 
 		// --- the result ---
-		resSig := fmt.Sprintf("/method=%s/status=%d/location=%v/size=%s/shape=%s", c.Cs.Method, pl.Status, pl.Location, pl.Size, pl.Shape)
+		resSig := fmt.Sprintf("/method=%s/status=%d/location=%s/size=%s/shape=%s", c.Cs.Method, pl.Status, pl.Location, pl.Size, pl.Shape)
 		exact := gerr == nil && bytes.Equal(got, payload)
 		switch ex.Res {
 		case "data":
